@@ -86,7 +86,7 @@ func c10Float[E float32 | float64](v *zzverif.T) {
 	op := v.CStr("op")
 	shape := v.CInts("shape")
 	n := zzverif.Prod(shape)
-	xs := zzverif.Syms[E](v, "x", n)
+	xs := zzverif.Data[E](v, "x", n)
 	X := zzverif.NewTensor(xs, shape)
 	snap := v.Snapshot(X)
 	inputs := []tensor.Tensor{X}
@@ -187,7 +187,7 @@ func c10Int[E int8 | int16 | int32 | int64 | uint8 | uint16 | uint32 | uint64](v
 	op := v.CStr("op")
 	shape := v.CInts("shape")
 	n := zzverif.Prod(shape)
-	xs := zzverif.Syms[E](v, "x", n)
+	xs := zzverif.Data[E](v, "x", n)
 	X := zzverif.NewTensor(xs, shape)
 	snap := v.Snapshot(X)
 	inputs := []tensor.Tensor{X}
@@ -228,7 +228,7 @@ func c10Int[E int8 | int16 | int32 | int64 | uint8 | uint16 | uint32 | uint64](v
 
 func c10Not(v *zzverif.T) {
 	shape := v.CInts("shape")
-	xs := zzverif.Syms[bool](v, "x", zzverif.Prod(shape))
+	xs := zzverif.Data[bool](v, "x", zzverif.Prod(shape))
 	X := zzverif.NewTensor(xs, shape)
 	snap := v.Snapshot(X)
 	r := zzRun(v, "Not", nil, []tensor.Tensor{X})
